@@ -4,6 +4,9 @@
    device with the SAME inode number as that group, a second group reached through
    a symlink CHAIN, files without inode information, a link with a "../" target whose destination
    directory is not part of the set, a fifo.  Hard links share their attributes (one inode).    *)
+\* Names are opaque to the specification (only "." and ".." mean something, and only inside link
+\* targets); several pool names deliberately start / end with dots or consist of dots only, at the
+\* top level and nested: a path is a sequence of components, not a string to be trimmed.
 EXTENDS TarRoundTrip, FiniteSetsExt
 
 Base(p, t) == [path |-> p, type |-> t, mode |-> 493, uid |-> 0, gid |-> 0, msec |-> 1400000000, musec |-> 0,
@@ -23,18 +26,18 @@ Pool == <<
     F(<<"d", "f2">>, 1, 1),
     S(<<"l">>, FALSE, <<"d">>, "d"),
     F(<<"l", "f4">>, 1, 1),                              \* really d/f4
-    F(<<"f3">>, 2, 2),
+    F(<<"..f3">>, 2, 2),
     S(<<"k">>, FALSE, <<"l">>, "l"),                     \* chain k -> l -> d
     F(<<"k", "f5">>, 2, 2),                              \* really d/f5
-    F(<<"d", "g">>, 0, 3),                               \* no inode information
-    F(<<"g2">>, 0, 3),
+    F(<<"d", ".g.">>, 0, 3),                               \* no inode information
+    F(<<".g2">>, 0, 3),
     S(<<"d", "up">>, FALSE, <<"..", "e">>, "../e"),      \* d/up -> /e, which is not in the set
     D(<<"d", "up", "sub">>),                             \* really e/sub
-    P(<<"d", "p">>),
-    S(<<"a">>, TRUE, <<"d", "up">>, "/d/up"),            \* absolute, through another link
-    F(<<"a", "h">>, 2, 2),                               \* really e/h
+    P(<<"d", "...">>),
+    S(<<".a">>, TRUE, <<"d", "up">>, "/d/up"),            \* absolute, through another link
+    F(<<".a", "h.">>, 2, 2),                               \* really e/h
     FD(<<"s1">>, 2, 1, 4),                               \* a hard link pair on a SECOND device whose inode
-    FD(<<"s2">>, 2, 1, 4)                                \* number collides with the group d/f1, d/f2, l/f4
+    FD(<<"...s2">>, 2, 1, 4)                                \* number collides with the group d/f1, d/f2, l/f4
 >>
 PoolSet == {Pool[i] : i \in DOMAIN Pool}
 \* the in-domain subsets of at most n entries
